@@ -99,7 +99,7 @@ Proof. exact compress_then_decompress_safe. Qed.
 Print Assumptions C01_compress_then_decompress_safe.
 
 (* Kept visible: the same statement for LZ4_compress_HC and friends at EVERY level.  Proved below for levels 1-2
-   (LZ4MID, C01_hc_mid_*) and 3-9 (hash chain, C01_hc_chain_*); NOT proved for levels 10-12 (optimal parser: no Coq model). *)
+   (LZ4MID, C01_hc_mid_... theorems) and 3-9 (hash chain, C01_hc_chain_... theorems); NOT proved for levels 10-12 (optimal parser: no Coq model). *)
 Definition C01_hc_full_statement : Prop :=
   forall (compress_HC : mem -> Z -> Z -> Z -> Z * list byte) (src : mem) srcSize cap level,
     src_ok src -> let '(r, out) := compress_HC src srcSize cap level in
